@@ -192,6 +192,10 @@ class Ptychography(PtychographyOpt, PtychographyVisualizations, PtychographyBase
             new_scheduler = True
 
         if new_scheduler:
+            if reset and optimizer_params is None:
+                # reset_recon() has already built schedulers on these optimizers and thereby
+                # rescaled their learning rates: start again from the configured rates
+                self.set_optimizers()
             self.set_schedulers(self.scheduler_params, num_iter=num_iters)
 
         self.dset._set_targets(loss_type)
